@@ -2336,8 +2336,8 @@ def run(tier):
     ck.rule("E6.mean-roles", "MeanFilter / MeanFilterBlocked / Global::MeanFilter: filter_rhs/def add c*_vec_dual with c = -<vector,_vec_prim>/_volume, filter_sol/cor add c*_vec_prim with c = [sol_mean] - <vector,_vec_dual>/_volume (per block component; global: frequency-weighted triple_dot summed over the communicator). Broken => mean not removed / not idempotent whenever prim != dual (any non-uniform mesh)", 16 * k)
     ck.rule("E4.map", "FilterChain, FilterSequence, TupleFilter, PowerFilter, Global::Filter: filter_X applies filter_X (same method) of every component exactly once, to the whole vector (chain/sequence, in declared order) resp. to the like-named sub-vector first()/rest()/local()", 65 * k)
 
-    ck.rule("E0.copy-ops", "move construction / move assignment / clone() / clone(other) / convert(other) of every filter class instantiate (driver tu/c06_copyops.cpp); a copy-like member that cannot be instantiated cannot hand the constraint over", 66)
-    ck.rule("C06.state-transfer", "sibling agreement of the copy-like operations: every data member that the filter_* methods of a class read (transitively through its own accessors) is defined, in each of move-ctor / move-assign / clone() / clone(other) / convert(other), from the SAME member of the source (directly, through the class's constructor parameter that initialises it, or recomputed from transferred members). Broken => the copy imposes a different constraint than the original as soon as that member is not at its default (e.g. ignore_nans=true, sol_mean != 0)", 123)
+    ck.rule("E0.copy-ops", "move construction / move assignment / clone() / clone(other) / convert(other) of every filter class instantiate (driver tu/c06_copyops.cpp); a copy-like member that cannot be instantiated cannot hand the constraint over", 68)
+    ck.rule("C06.state-transfer", "sibling agreement of the copy-like operations: every data member that the filter_* methods of a class read (transitively through its own accessors) is defined, in each of move-ctor / move-assign / clone() / clone(other) / convert(other), from the SAME member of the source (directly, through the class's constructor parameter that initialises it, or recomputed from transferred members). Broken => the copy imposes a different constraint than the original as soon as that member is not at its default (e.g. ignore_nans=true, sol_mean != 0)", 138)
     extra = ("-DC06_WIDE",) if wide else ()
     facts = featlib.extract("tu/c06_filters.cpp", files=FILES, extra=extra)
     analyse(ck, facts, "", True)
